@@ -36,6 +36,7 @@ ASSUMPTIONS = ["only row-oriented lists are generated; shape-less forms list "
 TMP = c01.TMP
 
 ALL_FORMS = ["ndarray", "ndarray_int", "ndarray_bool", "ndarray_f32",
+             "ndarray_F", "ndarray_Tview",
              "lists", "triples", "triples_zeros", "triples_min", "dict",
              "dict_zeros",
              "list_arrays", "list_arrays_mixed", "list_dicts", "list_sparse",
@@ -135,6 +136,11 @@ def encode(rows, form):
     n, m = a.shape
     if form == "ndarray":
         return a.copy(), {}
+    if form == "ndarray_F":
+        return np.asfortranarray(a), {}
+    if form == "ndarray_Tview":
+        # the transpose of a row-major array holding the transposed content
+        return np.ascontiguousarray(a.T).T, {}
     if form == "ndarray_int":
         return a.astype(np.int64), {}
     if form == "ndarray_bool":
